@@ -404,9 +404,11 @@ def run(ctx):
                 ctx.oracle_fail("model-update-raises:" + name, "model", spec, obs, req, text)
                 continue
             N, n = model.nstates(), model.ndim()
-            if spec.get("representation") != "diabatic" and cap.calls and name != "shin-metiu":
+            if spec.get("representation") != "diabatic" and name != "shin-metiu":
                 ctx.monitor("eigh_orthonormality", cap.worst_orth)
-                _a, w, cf = cap.calls[0]
+                # raw eigenvectors are unique up to the signs the sign fix removes, so a model class that diagonalises V by some
+                # other route than numpy.linalg.eigh is compared through the harness's own decomposition of its V(x)
+                _a, w, cf = ec.first_eigh(cap, "model.update", W=(None if cap.calls else np.asarray(model.V(x))))
                 dV = np.asarray(model.dV(x))
                 if dV.shape == (n, N, N):
                     guard = 1e-10
